@@ -176,6 +176,8 @@ func timeNorm(format string, o vh.Opts) func(time.Time) time.Time {
 			}
 			return t.UTC().Round(time.Microsecond)
 		}
+	case "json":
+		return jsonTimeNorm(o) // nil unless TimeFormat is set (jsonopt.go)
 	}
 	return nil
 }
@@ -454,7 +456,7 @@ type onlyReader struct{ r io.Reader }
 func (o onlyReader) Read(p []byte) (int, error) { return o.r.Read(p) }
 
 func roundTrip(format string, o vh.Opts, t reflect.Type, v reflect.Value, r *vh.Rng, sum *vh.Summary, stream string, idx int) (encLen int, ok bool) {
-	h := vh.NewHandle(format, o)
+	h := newHandle(format, o)
 	enc, err := encodeBytes(h, v.Interface())
 	cj := caseJSON(format, o, t, enc, idx)
 	if err != nil {
@@ -483,7 +485,7 @@ func roundTrip(format string, o vh.Opts, t reflect.Type, v reflect.Value, r *vh.
 				o2[k] = x
 			}
 			o2["ReaderBufferSize"] = r.PickInt(0, 0, 1, 7, 64, 4096)
-			h2 := vh.NewHandle(format, o2)
+			h2 := newHandle(format, o2)
 			derr = codec.NewDecoder(onlyReader{bytes.NewReader(enc)}, h2).Decode(dst.Interface())
 			cj["reader_buffer"] = o2["ReaderBufferSize"]
 		}
@@ -519,7 +521,7 @@ func without(o vh.Opts, k string) vh.Opts {
 
 // plainRoundTrip: bytes transport only, no reporting.
 func plainRoundTrip(format string, o vh.Opts, t reflect.Type, v reflect.Value) bool {
-	h := vh.NewHandle(format, o)
+	h := newHandle(format, o)
 	enc, err := encodeBytes(h, v.Interface())
 	if err != nil {
 		return false
@@ -666,7 +668,7 @@ func main() {
 	cases := flag.String("cases", "/verif/build/c01/cases", "directory for the model case files")
 	flag.Parse()
 	r := vh.NewRng(vh.SeedFromEnv())
-	sum := vh.NewSummary("model: cbor, random static type (reflect-built structs with rename tags, named-type corpus) x value x generic/driver option vector; real encoder bytes parsed independently into an item tree, real decoder output, both compared with the Coq generic model. oracle/sweep: Decode(Encode(v)) == norm(v) on the implementation for all five formats, bytes and io transports, random format options, lengths on the 23/24/31/32/255/256/65535/65536 boundaries. distinct_nontrivial = distinct (stream, format, type shape, option vector, boundary class of the largest length [+ exact boundary length hit]) tuples of successful evaluations")
+	sum := vh.NewSummary("model: cbor, random static type (reflect-built structs with rename tags, named-type corpus) x value x generic/driver option vector; real encoder bytes parsed independently into an item tree, real decoder output, both compared with the Coq generic model. oracle/sweep: Decode(Encode(v)) == norm(v) on the implementation for all five formats, bytes and io transports, random format options, lengths on the 23/24/31/32/255/256/65535/65536 boundaries. jsonopt: the same oracle on a fixed product of JsonHandle BytesFormat / TimeFormat lists x byte-string lengths 0..17 and the boundary lengths x shapes x option vectors, and of instants with zero / non-zero nanoseconds and zones (jsonopt.go). distinct_nontrivial = distinct (stream, format, type shape, option vector, boundary class of the largest length [+ exact boundary length hit]) tuples of successful evaluations")
 	modelStream(r.Fork(), *nModel, *cases, sum)
 	oracleStream(r.Fork(), *nOracle, sum)
 	lens := []int{23, 24, 31, 32, 255, 256}
@@ -675,5 +677,7 @@ func main() {
 	}
 	lengthSweep(r.Fork(), lens, sum)
 	edgeStream(r.Fork(), sum)
+	jsonOptStream(r.Fork(), *big, sum)
+	scratchStream(r.Fork(), sum)
 	sum.Print()
 }
